@@ -50,9 +50,15 @@ def extra_c02_frame(prop, tier, seed):
             and toks[uses[0] - 2].text == 'decode_cbor' and toks[uses[0] + 1].text == ')'
         checked.append('%s:%d' % (rel, toks[k].line))
         if not ok:
-            raise engine.Undecided('frame-lost', 'validate_cbor_from_slice at %s:%d uses the encoded bytes `cbor_slice` '
-                                   'other than as decode_cbor(cbor_slice): the validator may now observe the encoding; '
-                                   'the encoding-independence argument no longer applies' % (rel, toks[k].line))
+            # never a violation by itself: the argument "the validator sees only the decoded Value" is lost;
+            # the encoding-independence witness search on the real code decides (needs_witness)
+            return {'violations': [{
+                'unit': 'frame', 'label': 'validate_cbor_from_slice:bytes-flow-only-into-decode_cbor', 'fn': 'validate_cbor_from_slice',
+                'message': 'validate_cbor_from_slice at %s:%d uses the encoded bytes `cbor_slice` other than as '
+                           'decode_cbor(cbor_slice): the validator may now observe the encoding' % (rel, toks[k].line),
+                'clause': [], 'engine': 'token-scan', 'verifier_output': '',
+                'needs_witness': ['frame obligation lost at %s:%d' % (rel, toks[k].line)]}],
+                'notes': ['frame lost at %s:%d' % (rel, toks[k].line)]}
     return {'notes': ['frame: cbor_slice flows only into decode_cbor in %d variants of validate_cbor_from_slice (%s)'
                       % (len(ks), ', '.join(checked))],
             'obligations': len(ks), 'discharged': len(ks),
